@@ -19,7 +19,8 @@ From Coq Require Import List ZArith NArith Bool.
 Import ListNotations.
 From Omega Require Import L5Cover.Boxes L5Cover.BoxesProofs L5Cover.MinCover
   L5Cover.MinCoverProofs L5Cover.CoverEnum L5Cover.CoverEnumProofs
-  L5Cover.MinCoverBounded L5Cover.MinCoverBounded4 L5Cover.CoverEnumBounded4.
+  L5Cover.MinCoverBounded L5Cover.MinCoverBounded4 L5Cover.CoverEnumBounded4
+  L5Cover.CoverEnumOld L5Cover.CoverEnumRefuted.
 Open Scope Z_scope.
 
 (* what C10 demands of an enumeration procedure: it returns (no error) a set
@@ -127,6 +128,14 @@ Example C10_F2_repaired_answer :
             length R = 3%nat /\ is_all_min_covers_b rs4 f2_f care_true R = true.
 Proof. exact F2_repaired_answer. Qed.
 
+(* "terminates without error" is FALSE for the model of the unrepaired code
+   (CoverEnumOld.v: pick_iter/count without care_vars): on the witness it
+   stops at one of the two assertions of _enumerate_mincovers_below *)
+Theorem C10_refuted_unrepaired :
+  exists fm, (1 <= fm < 65536)%N /\
+    is_f2_error (enum_minimize_unrepaired rs4 pick_first (fun_of_mask fm) care_true) = true.
+Proof. exists f2_mask. destruct enum_unrepaired_fails as [A [B _]]. split; assumption. Qed.
+
 Example C10_refuted_unrepaired_mechanism :
   exists S,
     below_and_suff [(1,1);(0,1);(0,0);(0,0)]
@@ -145,3 +154,4 @@ Print Assumptions C10_enum_sound.
 Print Assumptions C10_bounded_3.
 Print Assumptions C10_bounded_3_pick_last.
 Print Assumptions C10_bounded_4.
+Print Assumptions C10_refuted_unrepaired.
